@@ -14,3 +14,5 @@ const (
 	tokenGTR  = token.GTR
 	tokenLSS  = token.LSS
 )
+
+var typUint8 = types.Typ[types.Uint8]
